@@ -82,6 +82,9 @@ def run(ck):
             # cyclic-* cells, reached by a generated program; death and "still recursing at the deadline" are the same failure
             ck.violation("fatal:cyclic-random", "a random program builds a self-containing container and its traversal takes the host down\n%s" % p["src"][:600], rep)
             continue
+        if (o.get("died") or o.get("hang")) and cell.startswith("cyclic-random-shape"):
+            ck.violation("fatal:cyclic-random", "a self-containing container in a block variable, traversed by the host's calls after the run\n%s" % p["src"][:300], rep)
+            continue
         if o.get("died"):
             ck.violation("fatal:" + cell, "a script killed the host process (fatal Go error, not recoverable): %s\n%s\n%s" % (
                 cell, p["src"][:400], (o.get("stderr") or "")[:300]), rep)
